@@ -10,6 +10,7 @@ import traceback
 
 VERIF = os.path.dirname(os.path.dirname(os.path.abspath(__file__)))
 REPO = os.environ.get('TXDBUS_REPO', '/repo')
+OUT = os.environ.get('PYVC_OUT', None)        # testing only: write evidence / replays somewhere else (seed regression on a scratch tree)
 
 
 def setup_paths():
@@ -148,8 +149,8 @@ def finish(spec, modname, tier, seed, reports, bounded, t0, write_ledger=False):
     crashes = [r for r in reports if 'crash' in r] + [b for b in bounded if 'crash' in b]
     lines, violations, known_hit, undecided, checker_errors = [], [], [], [], []
     n_obl = n_dis = 0
-    os.makedirs(os.path.join(VERIF, 'replays'), exist_ok=True)
-    os.makedirs(os.path.join(VERIF, 'evidence'), exist_ok=True)
+    os.makedirs(os.path.join(OUT or VERIF, 'replays'), exist_ok=True)
+    os.makedirs(os.path.join(OUT or VERIF, 'evidence'), exist_ok=True)
     for r in crashes:
         checker_errors.append('crash in %s: %s' % (r['name'], r['crash'].strip().split('\n')[-1]))
         sys.stderr.write(r['crash'])
@@ -196,7 +197,7 @@ def finish(spec, modname, tier, seed, reports, bounded, t0, write_ledger=False):
             if kf is not None:
                 known_hit.append((kf, cid))
                 continue
-            fn = os.path.join(VERIF, 'replays', '%s_%s.json' % (pid, safe('.'.join(r['name'].split('.')[-2:]) + '_' + o['name'])))
+            fn = os.path.join(OUT or VERIF, 'replays', '%s_%s.json' % (pid, safe('.'.join(r['name'].split('.')[-2:]) + '_' + o['name'])))
             if rp and rp.get('reproduced'):
                 json.dump(entry, open(fn, 'w'), indent=1, default=str)
                 violations.append((cid, fn, ''))
@@ -227,7 +228,7 @@ def finish(spec, modname, tier, seed, reports, bounded, t0, write_ledger=False):
                 if kf is not None:
                     known_hit.append((kf, u['function']))
                     continue
-                fn = os.path.join(VERIF, 'replays', '%s_%s.json' % (pid, safe('.'.join(u['function'].split('.')[-2:]) + '_search')))
+                fn = os.path.join(OUT or VERIF, 'replays', '%s_%s.json' % (pid, safe('.'.join(u['function'].split('.')[-2:]) + '_search')))
                 json.dump({'property': pid, 'function': u['function'], 'clause': 'search:' + u['clause'],
                            'obligation': '%s/%s/%s (undecided deductively; failing input found by concrete search)' % (pid, u['function'], u['clause']),
                            'solver_model': {}, 'replay': rp, 'repo': REPO, 'tier': tier}, open(fn, 'w'), indent=1, default=str)
@@ -242,7 +243,7 @@ def finish(spec, modname, tier, seed, reports, bounded, t0, write_ledger=False):
             if kf is not None:
                 known_hit.append((kf, b['name']))
                 continue
-            fn = os.path.join(VERIF, 'replays', '%s_%s.json' % (pid, safe(b['name'] + '_' + str(fl.get('clause', '')))))
+            fn = os.path.join(OUT or VERIF, 'replays', '%s_%s.json' % (pid, safe(b['name'] + '_' + str(fl.get('clause', '')))))
             json.dump({'property': pid, 'bounded_check': b['name'], 'failure': fl, 'repo': REPO}, open(fn, 'w'), indent=1, default=str)
             violations.append(('%s/%s/%s' % (pid, b['name'], fl.get('clause', '')), fn, ''))
     # known findings: still failing -> print; the witness is replayed natively
@@ -285,7 +286,7 @@ def finish(spec, modname, tier, seed, reports, bounded, t0, write_ledger=False):
     ev = {'property_id': pid, 'tier': tier, 'seed': int(seed), 'level': level, 'coverage': cov,
           'assumptions': spec.trusted + spec.assumed + spec.notes, 'wall_s': round(wall, 2),
           'violations': len(violations)}
-    json.dump(ev, open(os.path.join(VERIF, 'evidence', '%s.json' % pid), 'w'), indent=1, default=str)
+    json.dump(ev, open(os.path.join(OUT or VERIF, 'evidence', '%s.json' % pid), 'w'), indent=1, default=str)
     print('%s tier=%s obligations=%d discharged=%d undecided=%d violations=%d known=%d bounded=%d wall=%.1fs level=%s'
           % (pid, tier, n_obl, n_dis, len(undecided), len(violations), len(known_hit), len(bounded_out), wall, level))
     for u in undecided[:20]:
